@@ -38,7 +38,12 @@ pub fn run_real(ops: &[Op], key: &KeyPair) -> (String, DistinguishedName) {
 	for op in ops {
 		match op {
 			Op::Push(t, v) => {
-				dn.push(t.real(), v.real().unwrap());
+				// (text goes in the ways text does: as a DnValue, as &str, as String)
+				match v {
+					DnV::Utf8(s) if s.len() % 3 == 1 => dn.push(t.real(), s.as_str()),
+					DnV::Utf8(s) if s.len() % 3 == 2 => dn.push(t.real(), s.clone()),
+					_ => dn.push(t.real(), v.real().unwrap()),
+				}
 				outs.push("p".into());
 			},
 			Op::Remove(t) => outs.push(dn.remove(t.real()).to_string()),
@@ -284,7 +289,7 @@ model: {}", line, settled.0, abs, model));
 			let c = it2.count();
 			let rest: Vec<(DnType, DnValue)> = dn.iter().skip(k).map(|(t, v)| (t.clone(), v.clone())).collect();
 			let last = dn.iter().skip(k).last().map(|(t, v)| (t.clone(), v.clone()));
-			if c != left || rest[..] != all[k.min(n)..] || last != all[k.min(n)..].last().cloned() {
+			if c != left || rest[..] != all[k.min(n).min(all.len())..] || last != all[k.min(n).min(all.len())..].last().cloned() {
 				bad = Some(format!("after {} of {} items: count() = {}, skip({}).collect() has {} items", k, n, c, k, rest.len()));
 			}
 			// an exhausted enumeration stays exhausted
@@ -326,6 +331,29 @@ model: {}", line, settled.0, abs, model));
 		rep.count(if eq_enum { "eq_permuted_same" } else { "eq_permuted_differs" });
 		if (o == dn) != eq_enum || (dn == o) != eq_enum {
 			rep.violate("C20:equality", "== of two names differs from equality of their enumerations", format!("history: {}\nagainst the same attributes pushed in {} order: == gives {}, enumerations equal: {}", line, what, o == dn, eq_enum));
+		}
+	}
+	// ... and against names that differ from it in one value only (another letter case, one more
+	// character, the same text as another string kind): never equal
+	for i in 0..abs.len().min(4) {
+		let near: Vec<DnV> = match &abs[i].1 {
+			DnV::Printable(t) => vec![DnV::Printable(t.to_uppercase()), DnV::Printable(t.to_lowercase()), DnV::Printable(format!("{} ", t)), DnV::Utf8(t.clone())],
+			DnV::Utf8(t) => vec![DnV::Utf8(t.to_uppercase()), DnV::Utf8(t.to_lowercase()), DnV::Utf8(format!("{}\0", t)), DnV::Utf8(t.replace('\0', ""))],
+			DnV::Ia5(t) => vec![DnV::Ia5(t.to_uppercase()), DnV::Ia5(t.to_lowercase())],
+			DnV::Teletex(t) => vec![DnV::Teletex(t.to_uppercase())],
+			_ => vec![],
+		};
+		for nv in near {
+			if nv == abs[i].1 || nv.real().is_none() {
+				continue;
+			}
+			let mut other = abs.clone();
+			other[i].1 = nv;
+			let o = direct(&other);
+			rep.count("eq_one_value_changed");
+			if o == dn || dn == o {
+				rep.violate("C20:equality", "== of two names differs from equality of their enumerations", format!("history: {}\nagainst the same name with the value of attribute {} changed to {:?}: == gives true", line, i, other[i].1));
+			}
 		}
 	}
 	// the encoded name after *every* edit, with generation interleaved: a certificate generated
@@ -431,8 +459,9 @@ pub fn run(ctx: &mut Ctx) -> Report {
 	rep.exhaustive.push(format!("all histories of length <= {} over {} edit operations", max_len, step_ops.len()));
 	// random long histories over a wider alphabet
 	let mut rng = Rng::new(ctx.seed ^ 0xC20);
-	let wide_types = vec![DnT::C, DnT::L, DnT::St, DnT::O, DnT::Ou, DnT::Cn, DnT::Custom(vec![2, 5, 4, 3]), DnT::Custom(vec![1, 2, 3]), DnT::Custom(vec![1, 2, 3, 4]), DnT::Custom(vec![0, 9, 2342, 19200300, 100, 1, 25])];
-	let wide_vals = vec![DnV::Utf8("x".into()), DnV::Utf8("héllo".into()), DnV::Printable("AB".into()), DnV::Ia5("i@5".into()), DnV::Teletex("tt".into()), DnV::Bmp(vec![0, 65]), DnV::Universal(vec![0, 1, 0xF6, 0]), DnV::Utf8("".into())];
+	// (among the types: identifiers no encoder takes — a name may hold them; generation refuses it)
+	let wide_types = vec![DnT::C, DnT::L, DnT::St, DnT::O, DnT::Ou, DnT::Cn, DnT::Custom(vec![2, 5, 4, 3]), DnT::Custom(vec![1, 2, 3]), DnT::Custom(vec![1, 2, 3, 4]), DnT::Custom(vec![0, 9, 2342, 19200300, 100, 1, 25]), DnT::Custom(vec![]), DnT::Custom(vec![5]), DnT::Custom(vec![3, 1]), DnT::Custom(vec![1, 40, 7])];
+	let wide_vals = vec![DnV::Utf8("x".into()), DnV::Utf8("héllo".into()), DnV::Printable("AB".into()), DnV::Printable("ab".into()), DnV::Printable("Ab".into()), DnV::Ia5("i@5".into()), DnV::Ia5("I@5".into()), DnV::Teletex("tt".into()), DnV::Bmp(vec![0, 65]), DnV::Bmp(vec![0, 97]), DnV::Universal(vec![0, 1, 0xF6, 0]), DnV::Utf8("".into()), DnV::Utf8("a\0b".into()), DnV::Utf8("\0".into()), DnV::Utf8("ab\0".into()), DnV::Utf8("X".into())];
 	let n = if ctx.thorough { 20000 } else { 1500 };
 	for _ in 0..n {
 		let long = rng.chance(1, 10);
